@@ -79,6 +79,18 @@ PROPS = {
             "C10_compile_wellformed_partial_strong": [],
             "C10_A23_legacy_window_refuted": [],
             "C10_A24_repaired": [],
+            "C10_compile_wellformed": [],
+            "C10_compile_wellformed_head": [],
+            "C10_compile_trace_complete": [],
+            "C10_from_u32_injective": [],
+            "C10_few_globals": [],
+            "C10_compile_wellformed_example": [],
+            "C10_compile_wellformed_module": [],
+            "C10_module_in_range_program": [],
+            "C10_name_collision_observation": [],
+            "C10_add_local_slot": [],
+            "C10_resolve_var_in_scope": [],
+            "C10_close_upvalue_slot": [],
         },
         n_quick=320, n_thorough=4000,
         gates=["obs.ok", "obs.err.ETooManyUpvalues", "obs.err.EInvalidJump", "obs.err.EDuplicateName", "obs.err.EEmptyVariable",
@@ -106,6 +118,16 @@ PROPS = {
             "programs with more than 16 distinct globals are generated unless VERIF_C10_MANY_GLOBALS=0 (before the fix of "
             "HandleTable::entry, A-5, the 17th global made compile hang; a hang is observed through the harness watchdog, exit code 42)",
             "bytecode shorter than 2^31 bytes, fewer than 2^32 cards per function",
+            "C10_compile_wellformed (every program the compiler MODEL returns satisfies wellformed_gen false = wellformed at "
+            "HEAD) is proved for all modules under executable side conditions that are hypotheses of the theorem: "
+            "program_in_range (literals fit i64 / 64 bits), program_utf8 (string literals, native function names and "
+            "ReadVar / SetVar names are valid UTF-8), bytecode < 2^31 bytes, data section < 2^32 bytes; no hypothesis on "
+            "hash collisions (Handle::from_u32 is proved injective below 2^32 - 1, the number of globals is bounded by the "
+            "code size, collisions of Handle::from_str on variable NAMES do not affect the tables' validity)",
+            "not proved, not part of wellformed (the bytecode does not declare the number of locals of a function): every "
+            "emitted local index is below the number of locals of its function at that point, every RegisterUpvalue pair names an "
+            "existing local / upvalue of the enclosing function; proved only for the operations that produce the indices "
+            "(C10_add_local_slot, C10_resolve_var_in_scope, C10_close_upvalue_slot), not threaded through process_card",
         ],
     ),
     "C01": dict(
